@@ -21,3 +21,17 @@ PROPS["C13"] = dict(
     rules={"ops": ["open"]},
     assumptions=["the source is an in-memory Cursor (seek before the start fails, reads are exact)"],
 )
+
+PROPS["C01"] = dict(
+    module="Grenad.Props.C01",
+    theorems=T("Grenad.Props.C01", ["C01_levels255_trapped_when_pinned"]),
+    streams={"write": (160, 1600)},
+    rules={"ops": ["ins", "finish", "file", "c", "interop"], "finish_must_succeed": True, "blocks": True},
+)
+
+PROPS["C03"] = dict(
+    module="Grenad.Props.C03",
+    theorems=T("Grenad.Props.C03", ["C03_counterexample_pinned", "C03_witness_repaired"]),
+    streams={"cursor": (240, 2400)},
+    rules={"ops": ["c", "file"], "fingerprint": True},
+)
